@@ -234,7 +234,7 @@ def gen_logical_list(t, enc):
     return pws, opts
 
 
-JUNK = [b"", b"ab\tcd", b"\x01ctl", b"xx\x1byy", b"\t", b"  \t  "]
+JUNK = [b"", b"ab\tcd", b"\x01ctl", b"xx\x1byy", b"\t", b"  \t  ", b"us\x1fsep", b"\x00nul", b"bs\x08", b"del\x10e", b"x\x19y", b"\x1f"]
 
 
 def junk_line(t, enc, style, errs):
@@ -250,7 +250,9 @@ def junk_line(t, enc, style, errs):
         counted = None
     elif k == 2:
         # forbidden content smuggled in through the hex route: tab, LF, C0 control, U+2028, U+0085 inside the payload
-        payload = t.choice(["ab\tcd", "ab\ncd", "x\x01y", "\x1b[0m", "a\rb"]).encode("ascii")
+        payload = t.choice(["ab\tcd", "ab\ncd", "x\x01y", "\x1b[0m", "a\rb", "summer\x1f2019", "a\x00b", "q\x1ew", "\x0bvt", "ff\x0c"]).encode("ascii")
+        if t.chance(1, 3):
+            payload = b"pw" + bytes([t.draw(0x20)]) + b"x"          # any C0 control character
         if enc == "utf-8" and t.chance(1, 3):
             payload = t.choice(["a\u2028b", "a\u0085b", "line\u2029end"]).encode("utf-8")
         jk = b"$HEX[" + payload.hex().encode("ascii") + b"]"
